@@ -21,6 +21,7 @@ import json
 import re
 
 from mc import explore, oracle, pipeline
+from mc.boot import HarnessError
 from mc.pool import pmap
 from mc.report import Result, Violation
 
@@ -172,6 +173,46 @@ def roots_job(job):
             "sched_points": ctl.sched_count}
 
 
+def history_case(case):
+    """(e) a faulted run followed by a fault-free run of the same batch in ONE process: the
+    second run must give the fault-free rows (a fault must not outlive its run).  Must be
+    executed in a process that has not run anything else (see history_subprocess)."""
+    name, mode = case["batch"], case["mode"]
+    active, pa, ra, _, fine = MODES[mode]
+    base = baseline(name)
+    dev = explore.dev_from_json(case["deviations"])
+    rows1, _ = explore.execute(_run(BATCHES[name]), dev, active, pool_alts=pa, rdkit_alts=ra)
+    rows2, ctl2 = explore.execute(_run(BATCHES[name]), {}, active, pool_alts=pa, rdkit_alts=ra)
+    bad = []
+    if len(rows2) != len(base):
+        bad.append({"key": ["fault-outlives-run", "row-lost"], "what": "fault-free run after a faulted run returns {} rows".format(len(rows2))})
+    else:
+        for i, (r, b0) in enumerate(zip(rows2, base)):
+            if [r.get(k) for k in KEYS] != [b0.get(k) for k in KEYS]:
+                cols = [k for k in KEYS if r.get(k) != b0.get(k)]
+                bad.append({"key": ["fault-outlives-run", ",".join(cols)],
+                            "what": "[{}] after a run with faults {} a fault-free run of the same batch gives row {} = {} instead of {}".format(
+                                name, case["deviations"], i, [r.get(k) for k in cols], [b0.get(k) for k in cols])})
+    return bad
+
+
+def history_subprocess(case):
+    """run history_case in a fresh interpreter (no state from earlier executions)"""
+    import subprocess
+    import sys as _sys
+
+    from mc.boot import VERIF as _V
+
+    p = subprocess.run([_sys.executable, "-c",
+                        "import sys, json; sys.path.insert(0, %r); from mc import boot; boot.boot(); from checks import c11; "
+                        "print('RESULT ' + json.dumps(c11.history_case(json.loads(sys.argv[1]))))" % _V, json.dumps(case)],
+                       capture_output=True, text=True, timeout=1800)
+    for line in p.stdout.splitlines():
+        if line.startswith("RESULT "):
+            return json.loads(line[7:])
+    return [{"key": ["history-harness"], "what": "history subprocess failed: " + (p.stderr.strip().splitlines() or ["?"])[-1][:200]}]
+
+
 def conformance_job(job):
     """real thread pool, real sleep > 2 s in the k-th single_mcs / fragment-analysis call"""
     from checks.c06 import real_run
@@ -225,6 +266,27 @@ def run(tier, seed):
                  ("ABC", "timeouts", 0, "task"), ("EAD", "faults", 1, "inline"), ("CB", "timeouts", 0, "inline")]
     rj = [{"batch": b, "mode": m, "bound": bd, "iso": iso} for b, m, bd, iso in plan]
     roots = pmap("checks.c11:roots_job", rj, chunk=1, seed=seed, timeout=7200)
+    # (e) first: a fault must not outlive its run.  Each history runs in a fresh interpreter.
+    hist_cases = []
+    for j, r in zip(rj, roots):
+        if j["mode"] == "timeouts" and j["iso"] == "inline":
+            for d in r["roots"]:
+                hist_cases.append({"batch": j["batch"], "mode": "timeouts", "deviations": d})
+            break
+    rh = pmap("checks.c11:history_subprocess", hist_cases, chunk=1, seed=seed, timeout=7200)
+    leaked = False
+    for c, bad in zip(hist_cases, rh):
+        for b in bad:
+            if b["key"][0] == "history-harness":
+                raise HarnessError(b["what"])
+            leaked = True
+            res.add(Violation("history", c, None, None, b["key"], b["what"]))
+    if leaked:
+        res.observations.append("a fault outlives its run: the stateless exploration below assumes independent executions and was skipped")
+        res.coverage = {"evaluations": 2 * len(hist_cases), "distinct_nontrivial": len(hist_cases),
+                        "rule": "histories [faulted run, fault-free run] in fresh interpreters; exploration skipped because state leaks between runs",
+                        "samples": hist_cases[:2], "exhaustive": False}
+        return res
     sj = []
     info = {}
     for j, r in zip(rj, roots):
@@ -268,7 +330,7 @@ def run(tier, seed):
             res.add(Violation("conformance", j, None, None, ["conformance", "real-thread-pool"], x["what"]))
     n_out = sum(len(v) for v in outcomes.values())
     res.coverage = {
-        "evaluations": n_exec,
+        "evaluations": n_exec + 2 * len(hist_cases),
         "distinct_nontrivial": n_out,
         "rule": "deviation-bounded exploration of the thread-pool / RDKit / landing choice points of the MCS stage for "
                 "1..3-row batches: complete 2^J timeout subsets, all fault patterns within the bound, every "
@@ -279,6 +341,7 @@ def run(tier, seed):
         "executions": n_exec,
         "executions_per_mode": per_mode,
         "executions_with_a_landed_zombie_write": landed,
+        "fault_then_fault_free_histories": len(hist_cases),
         "plan": info,
         "distinct_outcomes": {k: len(v) for k, v in outcomes.items()},
         "traces_validated_against_impl": validated,
@@ -297,6 +360,8 @@ def run(tier, seed):
 
 def replay(v):
     c = v.case
+    if v.sub == "history":
+        return [Violation(v.sub, c, None, None, b["key"], b["what"]) for b in history_subprocess(c) if b["key"] == v.key]
     if v.sub == "conformance":
         x = conformance_job(c)
         return [] if x["ok"] else [Violation(v.sub, c, None, None, v.key, x["what"])]
